@@ -332,6 +332,28 @@ class Model:
                 return False
         return True
 
+    def new_private_storage(self):
+        """names of private fields (self._x) this tree stores that the pinned tree did not have in that class - or anywhere, for classes new to the tree: the
+        representation a change introduced.  The conventional backing field of a property (name -> _name) is excluded: analyses read those through."""
+        if getattr(self, '_new_storage', None) is not None:
+            return self._new_storage
+        base = _baseline().get('fields')
+        out = set()
+        if base:
+            everywhere = {f_ for fs in base.values() for f_ in fs}
+            for c in self.classes.values():
+                known = set(base.get(c.qn, ())) if c.qn in base else None
+                for n in ast.walk(c.node):
+                    if isinstance(n, ast.Attribute) and isinstance(n.ctx, ast.Store) and isinstance(n.value, ast.Name) and n.value.id == 'self' and n.attr.startswith('_') \
+                            and not n.attr.startswith('__'):
+                        if n.attr in everywhere or (known is not None and n.attr in known):
+                            continue
+                        if n.attr.lstrip('_') in c.methods and c.methods[n.attr.lstrip('_')].is_property:
+                            continue
+                        out.add(n.attr)
+        self._new_storage = out
+        return out
+
     def class_constant(self, cls, attr):
         """(defining class, expression) when `attr` is set in the class body of cls (or the nearest base that has it), is not a method, and NO statement of the
         package stores to an attribute of that name (so that reading it off an instance finds the class-level value); else None"""
